@@ -60,6 +60,25 @@ func main() {
 				fmt.Println("note:", n)
 			}
 			code = 0
+		case "degsync":
+			c := loadProgram(repoDir(), mambaMod, 9)
+			r := ruleDegSync(c, func(string) bool { return true })
+			if len(os.Args) > 2 && os.Args[2] == "irr" {
+				r = ruleIrreflexive(c, "graph")
+			}
+			if len(os.Args) > 2 && os.Args[2] == "counts" {
+				r = ruleCounts(c, func(string) bool { return true })
+			}
+			for _, i := range r.Instances {
+				fmt.Println(i)
+			}
+			for _, f := range r.Findings {
+				fmt.Printf("  %s [%s] %s\n", f.Pos, f.Key, f.Msg)
+			}
+			for _, n := range r.Notes {
+				fmt.Println("note:", n)
+			}
+			code = 0
 		case "bounds":
 			c := loadProgram(repoDir(), mambaMod, 9)
 			for _, name := range os.Args[2:] {
